@@ -440,7 +440,10 @@ class Ctx:
         xz, cz = z3.simplify(I(x)), z3.simplify(I(c))
         key = (xz.get_id(), cz.get_id())
         if key in self._divcache:
-            return self._divcache[key][:2]
+            ent = self._divcache[key]
+            if getattr(self, "solving", False) and len(ent) > 4:
+                self.path.extend(ent[4])
+            return ent[:2]
         if z3.is_int_value(cz):
             cv = cz.as_long()
             if cv <= 0:
@@ -450,14 +453,15 @@ class Ctx:
                        "divisor > 0 (floor semantics of // and % are encoded for positive divisors only)")
         q, r = self.fresh_int("q"), self.fresh_int("r")
         self.keep += [xz, cz]
-        self.assume(xz == q * cz + r, r >= 0, r < cz)
+        facts = [xz == q * cz + r, r >= 0, r < cz]
         # valid case-split hint for every pair of decompositions over the same divisor
         # (DESIGN.md section 3): q1-q2 <= -2 or = -1 or = 0 or = 1 or >= 2
         for (q2, r2) in self._divs_by_c.get(cz.get_id(), []):
             d = q - q2
-            self.assume(z3.Or(d <= -2, d == -1, d == 0, d == 1, d >= 2))
+            facts.append(z3.Or(d <= -2, d == -1, d == 0, d == 1, d >= 2))
+        self.assume(*facts)
         self._divs_by_c.setdefault(cz.get_id(), []).append((q, r))
-        self._divcache[key] = (q, r, xz, cz)
+        self._divcache[key] = (q, r, xz, cz, facts)
         return q, r
 
     # ---- branching ---------------------------------------------------------------
